@@ -145,10 +145,22 @@ func allPrimsOf(vals []*gval) (string, bool) {
 }
 
 type normBuilder struct {
+	sep  string // the path separator the keys are written with ("" = ".")
 	repr string
 	rng  *rand.Rand // nil: entries inserted in the given order
 	opts []ucfg.Option
 	err  error
+}
+
+func (b *normBuilder) key(k []seg) string {
+	if b.sep == "" || b.sep == "." {
+		return segKey(k)
+	}
+	p := make([]string, len(k))
+	for i, s := range k {
+		p[i] = s.S
+	}
+	return strings.Join(p, b.sep)
 }
 
 func (b *normBuilder) build(g *gval, top bool) interface{} {
@@ -211,7 +223,7 @@ func (b *normBuilder) build(g *gval, top bool) interface{} {
 					}
 				}
 				fields[i] = reflect.StructField{Name: "F" + strconv.Itoa(i), Type: typ,
-					Tag: reflect.StructTag(`config:"` + segKey(e.Key) + `"`)}
+					Tag: reflect.StructTag(`config:"` + b.key(e.Key) + `"`)}
 			}
 			st := reflect.New(reflect.StructOf(fields)).Elem()
 			for i, v := range vals {
@@ -223,7 +235,7 @@ func (b *normBuilder) build(g *gval, top bool) interface{} {
 		case "mii":
 			m := map[interface{}]interface{}{}
 			for _, e := range es {
-				m[segKey(e.Key)] = b.build(e.Val, false)
+				m[b.key(e.Key)] = b.build(e.Val, false)
 			}
 			out = m
 		case "typed":
@@ -235,7 +247,7 @@ func (b *normBuilder) build(g *gval, top bool) interface{} {
 				first := b.build(es[0].Val, false)
 				m := reflect.MakeMap(reflect.MapOf(reflect.TypeOf(""), reflect.TypeOf(first)))
 				for _, e := range es {
-					m.SetMapIndex(reflect.ValueOf(segKey(e.Key)), reflect.ValueOf(b.build(e.Val, false)))
+					m.SetMapIndex(reflect.ValueOf(b.key(e.Key)), reflect.ValueOf(b.build(e.Val, false)))
 				}
 				out = m.Interface()
 				break
@@ -244,7 +256,7 @@ func (b *normBuilder) build(g *gval, top bool) interface{} {
 		default:
 			m := map[string]interface{}{}
 			for _, e := range es {
-				m[segKey(e.Key)] = b.build(e.Val, false)
+				m[b.key(e.Key)] = b.build(e.Val, false)
 			}
 			out = m
 			if b.repr == "ptr" && !top {
@@ -296,9 +308,15 @@ type normOutcome struct {
 // runNorm normalises one value on the real code and observes the result; it also
 // checks that feeding the unpacked data back in yields an identical config.
 func runNorm(g *gval, pol, repr string, rng *rand.Rand) (out normOutcome, refeed string) {
-	opts := append([]ucfg.Option{ucfg.PathSep(".")}, polOption(pol)...)
+	return runNormSep(g, pol, repr, rng, ".")
+}
+
+// runNormSep: the same with the keys written with another path separator (the meaning of an input does not
+// depend on which separator spells its paths)
+func runNormSep(g *gval, pol, repr string, rng *rand.Rand, sep string) (out normOutcome, refeed string) {
+	opts := append([]ucfg.Option{ucfg.PathSep(sep)}, polOption(pol)...)
 	panicked, msg := guard(func() {
-		b := &normBuilder{repr: repr, rng: rng, opts: opts}
+		b := &normBuilder{repr: repr, rng: rng, opts: opts, sep: sep}
 		v := b.build(g, true)
 		if b.err != nil {
 			out.Err = normErrClass(b.err)
@@ -318,7 +336,7 @@ func runNorm(g *gval, pol, repr string, rng *rand.Rand) (out normOutcome, refeed
 			}
 			c = c2
 		}
-		m, l, err := observeTop(c, ucfg.PathSep("."))
+		m, l, err := observeTop(c, ucfg.PathSep(sep))
 		if err != nil {
 			out.Err = "unpack: " + err.Error()
 			return
@@ -328,20 +346,20 @@ func runNorm(g *gval, pol, repr string, rng *rand.Rand) (out normOutcome, refeed
 		var back interface{}
 		if l == nil {
 			var mm map[string]interface{}
-			c.Unpack(&mm, ucfg.PathSep("."))
+			c.Unpack(&mm, ucfg.PathSep(sep))
 			back = mm
 		} else if m == nil {
 			var ll []interface{}
-			c.Unpack(&ll, ucfg.PathSep("."))
+			c.Unpack(&ll, ucfg.PathSep(sep))
 			back = ll
 		}
 		if back != nil {
-			c3, err := ucfg.NewFrom(back, ucfg.PathSep("."))
+			c3, err := ucfg.NewFrom(back, ucfg.PathSep(sep))
 			if err != nil {
 				refeed = "re-feeding the unpacked data failed: " + err.Error()
 				return
 			}
-			m3, l3, _ := observeTop(c3, ucfg.PathSep("."))
+			m3, l3, _ := observeTop(c3, ucfg.PathSep(sep))
 			if !reflect.DeepEqual(m3, m) || !reflect.DeepEqual(l3, l) {
 				refeed = "re-feeding the unpacked data gives " + jsonOf([]interface{}{m3, l3}) + " instead of " + jsonOf([]interface{}{m, l})
 			}
@@ -389,6 +407,7 @@ func normReplay(args []string) int {
 	fs := flag.NewFlagSet("norm", flag.ExitOnError)
 	reprs := fs.String("reprs", "struct,msi,mii,typed,ptr,cfg", "representations")
 	repeat := fs.Int("repeat", 2, "repetitions of every map-like representation with shuffled insertion order")
+	seps := fs.String("seps", "/,::", "further path separators the keys are spelled with (struct representation)")
 	seed := fs.Int64("seed", 1, "seed")
 	fs.Parse(args)
 	rl := strings.Split(*reprs, ",")
@@ -410,6 +429,18 @@ func normReplay(args []string) int {
 			h = h*131 + int64(ch)
 		}
 		rng := rand.New(rand.NewSource(*seed ^ h))
+		// the same input spelled with other separators (struct representation: the declaration order is the visiting order)
+		for _, sep := range strings.Split(*seps, ",") {
+			if sep == "" || sep == "." {
+				continue
+			}
+			out, refeed := runNormSep(c.Gv, c.Pol, "struct", nil, sep)
+			if refeed != "" {
+				rep.violate("not-idempotent/struct/sep="+sep, raw, refeed, nil, "")
+				continue
+			}
+			rep.classify(raw, c.Exp.Ideal, c.Exp.Alts, eqNorm(out), func() interface{} { return out }, "normalize/struct/sep="+sep)
+		}
 		for _, repr := range rl {
 			if repr == "struct" {
 				out, refeed := runNorm(c.Gv, c.Pol, repr, nil)
